@@ -212,6 +212,23 @@ impl HandshakeService {
     pub(crate) fn verif_contains(&self, peer: &PeerId, direction: Direction) -> bool {
         self.substreams.contains_key(&(*peer, direction))
     }
+
+    /// Verification hook: the keys of `substreams` in iteration order (peer, outbound?).
+    pub(crate) fn verif_keys(&self) -> Vec<(PeerId, bool)> {
+        self.substreams
+            .keys()
+            .map(|(peer, direction)| (*peer, *direction == Direction::Outbound))
+            .collect()
+    }
+
+    /// Verification hook: let the negotiation timer of one substream expire now.
+    pub(crate) fn verif_expire(&mut self, peer: &PeerId, direction: Direction) {
+        if let Some((_, timer, _)) = self.substreams.get_mut(&(*peer, direction)) {
+            *timer = Delay::new(Duration::from_millis(0));
+            // the timer is fired by the helper thread of futures_timer
+            std::thread::sleep(Duration::from_millis(30));
+        }
+    }
 }
 
 impl Stream for HandshakeService {
